@@ -47,6 +47,11 @@ def grammar_list(tier, seed):
                 'recursive': False, 'linear': True, 'name': 'vit_two_internal_nt', 'only': ['viterbi']})
     out.append({'spec': {'start': 'S', 'domains': dom, 'nonterminals': {'S': ['T']}, 'terminals': {'c': ['T'], 'b': ['T', 'T'], 'a': ['T', 'T']},
                          'rules': [R('S', ['T', 'T', 'T'], [('c', [2]), ('b', [1, 2]), ('a', [0, 1])], [0])]}, 'recursive': False, 'linear': True, 'name': 'vit_chain', 'only': ['viterbi']})
+    # a duplicated external node together with unattached internal and external nodes (bookkeeping of disconnected nodes vs node order)
+    out.append({'spec': {'start': 'S', 'domains': dom, 'nonterminals': {'S': ['T', 'T', 'T']}, 'terminals': {'f': ['T']},
+                         'rules': [R('S', ['T', 'T', 'U'], [('f', [0])], [0, 0, 1])]}, 'recursive': False, 'linear': True, 'name': 'dup_ext_loose_nodes'})
+    out.append({'spec': {'start': 'S', 'domains': dom, 'nonterminals': {'S': ['T', 'T']}, 'terminals': {'f': ['T']},
+                         'rules': [R('S', ['T', 'U', 'T', 'U'], [('f', [0])], [0, 0])]}, 'recursive': False, 'linear': True, 'name': 'dup_ext_two_loose_internals'})
     # gradients of a recursive grammar across insertion orders: recursion weights concrete (see C03), the rest symbolic
     for g in recursive.linear_tensor_family():
         if g['name'] in ('three_cycle_chord_BC', 'vec_two_cycle', 'two_recursive_rules'):
@@ -91,7 +96,7 @@ def cases(tier, seed=0):
                     cs.append({'name': g['name'], 'spec': g['spec'], 'recursive': True, 'semiring': kind, 'method': 'linear', 'opts': {}, 'grad': False})
             else:
                 method, opts = ['fixed-point', 'newton', 'linear'][(gi + ki) % 3], {}
-            if tier == 'quick' and not g['recursive'] and (gi + ki) % 2 and 'only' not in g:
+            if tier == 'quick' and not g['recursive'] and (gi + ki) % 2 and 'only' not in g and not g['name'].startswith('dup_ext'):
                 continue
             cs.append({'name': g['name'], 'spec': g['spec'], 'recursive': g['recursive'], 'semiring': kind, 'method': method, 'opts': opts,
                        'grad': kind == 'real' and not g['recursive'],
